@@ -158,7 +158,8 @@ class Policy:
                         f.kill()
                     f.resume()
                 elif then == "edit_resume":
-                    self._edit(f, r)
+                    if f.intercepted:  # a user can only edit a flow that is still held
+                        self._edit(f, r)
                     f.resume()
                 elif then == "never":
                     pass
@@ -172,8 +173,20 @@ class Policy:
         m = f.request if which == "request" else f.response
         if m is None:
             return
+        def bodiless(status):
+            return 100 <= status <= 199 or status in (204, 304)
         for e in r.get("edits", []):
             k = e["k"]
+            # an addon that gives a body to a message that cannot have one (or flips HEAD-ness) breaks framing
+            # by itself; that is not mitmproxy's defect, so the policy never does it.
+            if which == "response" and k == "content" and (bodiless(m.status_code) or f.request.method.upper() == "HEAD"):
+                continue
+            if which == "response" and k == "status" and (bodiless(m.status_code) or bodiless(e["value"])):
+                continue
+            if k == "method" and (e["value"].upper() in ("HEAD", "CONNECT") or f.request.method.upper() in ("HEAD", "CONNECT")):
+                continue
+            if k == "content" and m.stream:
+                continue  # documented: streamed bodies cannot be modified through .content
             if k == "set_header":
                 m.headers[e["name"]] = e["value"]
             elif k == "add_header":
@@ -218,6 +231,8 @@ class Obs:
         self.client_log: list = []
         self.buf_max: dict = {}
         self.monitor_violations: list = []
+        self.flow_objs: dict = {}  # flow id -> live flow object, in order of first hook
+        self.done_snaps: dict = {}  # (flow id, hook name) -> snapshot when that hook completed
 
     def flow_hooks(self):
         out: dict = {}
@@ -451,6 +466,7 @@ def run(sc, *, keep_log=False, monitors=(), extra_addons=(), with_addons=None, s
 
         def on_hook(t, name, data):
             if name in HTTP_FLOW_HOOKS:
+                obs.flow_objs.setdefault(data.id, data)
                 obs.hooks.append((t, name, data.id, snap_http(data)))
             elif name in CONN_HOOKS:
                 if name.startswith("client"):
@@ -462,6 +478,13 @@ def run(sc, *, keep_log=False, monitors=(), extra_addons=(), with_addons=None, s
             else:
                 obs.hooks.append((t, name, getattr(data, "id", None), None))
         w.hook_listeners.append(on_hook)
+
+        def on_hook_done(name, data):
+            # what the flow looked like when the hook (incl. interception and edits) completed:
+            # this is the state mitmproxy goes on to forward
+            if name in ("requestheaders", "request", "responseheaders", "response"):
+                obs.done_snaps[(data.id, name)] = snap_http(data)
+        w.hook_done_listeners.append(on_hook_done)
         for m in monitors:
             m(w, obs)
 
@@ -550,5 +573,7 @@ def crash_violations(sc, obs):
     async_cc = any(p["hook"] == "client_connected" and p.get("latency", 0) > 0 for p in sc.get("policy", []))
     key = {"where": tb.split(" @ ")[-1] if " @ " in tb else msg[:60], "exc": tb.split(":")[0],
            "eager": bool(sc.get("eager")), "async_client_connected": async_cc,
-           "early_reply": bool(w.net.faults_fired.get("early_reply"))}
+           "early_reply": bool(w.net.faults_fired.get("early_reply")),
+           "request_streamed": bool(sc.get("options", {}).get("stream_large_bodies")) or any(
+               p.get("action") == "stream" and p.get("which") == "request" for p in sc.get("policy", []))}
     return [{"class": "crash", "key": key, "msg": f"t={t:.6f} {msg} {tb}"}]
